@@ -589,6 +589,33 @@ type plan struct {
 	desc string // "" for a desugaring step that inlines nothing yet
 }
 
+// desugarShortCircuit rewrites "if L && R {..}" as "c := L; if c { c = R }; if c {..}" and "if L || R {..}" as
+// "c := L; if !c { c = R }; if c {..}": the same evaluation order and short circuit, with R in a plain statement.
+func (st *state) desugarShortCircuit(pk *packages.Package, ifs *ast.IfStmt, be *ast.BinaryExpr, src func(*token.FileSet, token.Pos) (string, []byte, error)) (*plan, ast.Stmt, error) {
+	fset := pk.Fset
+	name, b, err := src(fset, ifs.Pos())
+	if err != nil {
+		return nil, nil, err
+	}
+	tf := fset.File(ifs.Pos())
+	st.counter++
+	tmp := fmt.Sprintf("_inl%d_c", st.counter)
+	l := oneLine(b[tf.Offset(be.X.Pos()):tf.Offset(be.X.End())])
+	r := oneLine(b[tf.Offset(be.Y.Pos()):tf.Offset(be.Y.End())])
+	test := tmp
+	if be.Op == token.LOR {
+		test = "!" + tmp
+	}
+	so := tf.Offset(ifs.Pos())
+	pre := fmt.Sprintf("%s := %s; if %s { %s = %s }; ", tmp, l, test, tmp, r)
+	eds := map[string][]edit{}
+	eds[name] = append(eds[name],
+		edit{so, so, pre + lineDirective(fset, ifs.Pos(), nil, 0)},
+		edit{tf.Offset(ifs.Cond.Pos()), tf.Offset(ifs.Cond.End()), tmp + lineDirective(fset, ifs.Cond.End(), nil, 0)},
+	)
+	return &plan{eds: eds}, ifs, nil
+}
+
 // desugar rewrites "if init; cond {..}" (switch likewise) as "{ init; if cond {..} }", which has the same
 // scoping and evaluation order, so that a helper call in init or cond sits in a plain statement.
 func (st *state) desugar(pk *packages.Package, s ast.Stmt, init ast.Stmt, next token.Pos, src func(*token.FileSet, token.Pos) (string, []byte, error)) (*plan, ast.Stmt, error) {
@@ -755,6 +782,11 @@ func (st *state) plan(pk *packages.Package, x *fresh, id *ast.Ident, src func(*t
 			return nil, nil, fmt.Errorf("call not in the statement header at %s", where)
 		case *ast.BinaryExpr:
 			if (p.Op == token.LAND || p.Op == token.LOR) && ast.Node(p.Y) == c {
+				// "if L && R {..}" is "c := L; if c { c = R }; if c {..}" (|| likewise): desugar when the
+				// short-circuit expression is the whole condition of an if statement without init
+				if ifs, ok := path[si].(*ast.IfStmt); ok && i == si+1 && ifs.Init == nil && unparen(ifs.Cond) == ast.Expr(p) {
+					return st.desugarShortCircuit(pk, ifs, p, src)
+				}
 				return nil, nil, fmt.Errorf("call on the right of && / || at %s", where)
 			}
 		case *ast.IfStmt:
